@@ -49,7 +49,7 @@ type histCall struct {
 	Attrs  []vlib.ExpAttr
 	Thru   bool
 	Panics int // 0: no; 1: one attribute value panics in its String method (the caller recovers); 2: the same inside a group
-	Flip   int // 1: the privacy-path flag is inverted while this call is made; 2: a further path mapping over the source tree is registered meanwhile (sequential histories only; both undone before the probe)
+	Flip   int // 1: the privacy-path flag is inverted while this call is made; 2: a further path mapping over the source tree is registered meanwhile; 3: the working directory is another one meanwhile (sequential histories only; both undone before the probe)
 	Reads  int // > 0: one attribute is an ObjectMarshaller that consumes this many bytes of the encoder it is handed (Next) before writing
 }
 
@@ -128,11 +128,15 @@ func genHistory(t *rapid.T, label string, nLoggers int) []histCall {
 			Msg:    genMsg().Draw(t, "hmsg"),
 			Thru:   rapid.Bool().Draw(t, "hthru"),
 		}
+		if rapid.IntRange(0, 1999).Draw(t, "hhuge") == 1517 {
+			// a record of more than a megabyte (whatever is done to an oversized pooled buffer afterwards)
+			h[i].Msg = strings.Repeat("a very long history record ", (1<<20)/27+rapid.IntRange(100, 9000).Draw(t, "hhugeExtra"))
+		}
 		if rapid.Bool().Draw(t, "hattrs") {
 			h[i].Attrs = genAttrs(t)
 		}
 		if rapid.IntRange(0, 7).Draw(t, "hflip") == 0 {
-			h[i].Flip = rapid.IntRange(1, 2).Draw(t, "hflipKind")
+			h[i].Flip = rapid.IntRange(1, 3).Draw(t, "hflipKind")
 		}
 		if rapid.IntRange(0, 9).Draw(t, "hreads") == 0 {
 			h[i].Reads = rapid.SampledFrom([]int{1, 5, 40, 400, 5000}).Draw(t, "hreadsN")
@@ -175,6 +179,9 @@ func property(t *rapid.T, mode string, sink func([]byte)) {
 		flags := vlib.BaseFlags
 		if p.Caller {
 			flags |= slog.Lcaller
+			if rapid.IntRange(0, 3).Draw(t, "privacyPathOff") == 0 {
+				flags &^= slog.Lprivacypath // the caller file is then given relative to the working directory
+			}
 		}
 		slog.SetFlags(flags)
 		// optionally the probe's source file lies under two known-path mappings (as it does for
@@ -256,11 +263,17 @@ func property(t *rapid.T, mode string, sink func([]byte)) {
 						old := slog.GetFlags()
 						slog.SetFlags(old ^ slog.Lprivacypath)
 						defer slog.SetFlags(old)
-					} else {
+					} else if c.Flip == 2 {
 						cwd, _ := os.Getwd()
 						up := filepath.Dir(filepath.Dir(cwd))
 						slog.AddKnownPathMapping(up, "~flip")
 						defer slog.RemoveKnownPathMapping(up)
+					} else {
+						// the process is somewhere else for a moment (relative file names depend on where it is)
+						cwd, _ := os.Getwd()
+						if os.Chdir("/") == nil {
+							defer func() { _ = os.Chdir(cwd) }()
+						}
 					}
 				}
 				if c.Reads > 0 {
@@ -529,4 +542,45 @@ func TestRegistrationHistory(t *testing.T) {
 		vlib.Case("TestRegistrationHistory", fmt.Sprintf("%d|%v|%d", width, withTags, n), "registration-history")
 		vlib.Sample("TestRegistrationHistory", map[string]any{"width": width, "tags": withTags, "payload": vlib.Short(string(pa))})
 	})
+}
+
+// TestTimeLapse: the few things a sub-millisecond case cannot contain - real seconds between two records. The
+// same call is emitted, then (more than a second later, so that whatever the package refreshes "at most once a
+// second" is due) another record is issued while the process is in another working directory and the
+// privacy-path flag is off, then the first call is emitted again in the original setting: same bytes.
+func TestTimeLapse(t *testing.T) {
+	defer vlib.Canon()()
+	cwd, _ := os.Getwd()
+	ts := time.Unix(1700000000, 123456789).UTC()
+	for _, format := range []string{"json", "logfmt", "color"} {
+		for _, privacy := range []bool{true, false} {
+			flags := vlib.BaseFlags | slog.Lcaller
+			if !privacy {
+				flags &^= slog.Lprivacypath
+			}
+			slog.SetFlags(flags)
+			log := vlib.NewEventLog()
+			w := vlib.NewRec(log, 1, 0)
+			var lg slog.Logger = slog.New("lapse")
+			configure(lg, format)
+			lg.SetWriter(w).SetErrorWriter(w).SetLevel(slog.AlwaysLevel)
+			emit := func() []byte {
+				before := log.Len()
+				lg.(slog.LogSlogAware).WriteThru(context.Background(), slog.InfoLevel, ts, fixedPC, "time lapse probe", slog.Attrs{slog.NewAttr("k", 1)})
+				return log.Snapshot()[before:][0].Payload
+			}
+			first := emit()
+			time.Sleep(1050 * time.Millisecond)
+			if os.Chdir("/") == nil {
+				slog.SetFlags(flags ^ slog.Lprivacypath)
+				_ = emit()
+				slog.SetFlags(flags)
+				_ = os.Chdir(cwd)
+			}
+			if again := emit(); string(again) != string(first) {
+				vlib.Discrep(t, "C09/history-dependent", "C09 time lapse (format=%s privacypath=%v): the same call gives other bytes after a record that was issued a second later from another working directory:\n  %q\n  %q", format, privacy, first, again)
+			}
+			vlib.Case("TestTimeLapse", fmt.Sprintf("%s-%v", format, privacy), "time-lapse")
+		}
+	}
 }
